@@ -72,3 +72,13 @@ Lemma decoders_pinned_refuted :
   iframe_loop_unguarded 1 [8] 1 = Panic /\          (* IsIFrameProfile on tag 0xE9, data 08 *)
   iframe_loop_unguarded 1 [8; 128] 1 = Panic.       (* ... data 08 80: explicit flag, distance byte missing *)
 Proof. repeat split; reflexivity. Qed.
+
+Lemma descriptor_decoders_total d :
+  value (decode_maximum_bit_rate d) /\ value (decode_iso639_language_code d) /\
+  value (decode_iso639_audio_type d) /\ value (decode_ttml_iso639_language_code d) /\
+  value (decode_ttml_subtitle_purpose d) /\ value (is_dolby_vision d) /\
+  value (decode_dolby_vision_codec d) /\ value (is_iframe_profile d) /\ value (is_dolby_atmos d).
+Proof. repeat split. apply decode_maximum_bit_rate_total. apply decode_iso639_language_code_total.
+  apply decode_iso639_audio_type_total. apply decode_ttml_code_total. apply decode_ttml_purpose_total.
+  apply is_dolby_vision_total. apply decode_dolby_vision_codec_total. apply is_iframe_profile_total.
+  apply is_dolby_atmos_total. Qed.
